@@ -3,10 +3,12 @@
 use crate::runner::Scenario;
 
 pub mod common;
+pub mod c02;
 pub mod c05;
+pub mod c12;
 
 pub fn all() -> Vec<&'static Scenario> {
-    vec![&c05::MUTUAL]
+    vec![&c02::RPC, &c05::MUTUAL, &c12::ABANDON]
 }
 
 pub fn for_property(id: &str) -> Vec<&'static Scenario> {
